@@ -1873,7 +1873,7 @@ func (db *DB) isBanned(key []byte) error {
 	if db.opt.NamespaceOffset < 0 {
 		return nil
 	}
-	if len(key) <= db.opt.NamespaceOffset+8 {
+	if len(key) < db.opt.NamespaceOffset+8 {
 		return nil
 	}
 	if db.bannedNamespaces.has(y.BytesToU64(key[db.opt.NamespaceOffset:])) {
